@@ -2,6 +2,7 @@
 from .. import facts, q
 from ..engine import Engine, Inconclusive, C, fmt, subterms, root_param_names
 from ..common import site
+from . import ops
 from .ops import strip_casts
 
 SB = "rlbox::rlbox_sandbox"
@@ -129,6 +130,11 @@ def check_invoke(rep, db, f, inst):
                 v = p.state.mem.get(a)
                 if v is not None:
                     rs |= roots_of(v)
+            uc = ops.unchecked_conversion(p, a) or (ops.unchecked_conversion(p, p.state.mem.get(a)) if isinstance(a, tuple) and a[:1] in (("tmp",), ("var",)) and p.state.mem.get(a) is not None else None)
+            if uc:
+                rep.violation("R-C11-args", site(f), "argument %d reaches the backend through a plain C++ conversion %s performed in %s, outside the checked conversion routine: a value that is not representable "
+                              "in the sandbox ABI is delivered changed instead of aborting before the call" % (k, fmt(uc[0])[:70], ", ".join(uc[1])), e.loc, inst)
+                return
             if a == C(0) or (not rs):
                 # constant (null) argument: must be justified by the parameter being null / nullptr_t
                 ptype = (f["params"][2 + k]["t"] or {})
